@@ -7,7 +7,7 @@ from harness import core, docgen, inputs, trees
 
 GEN = ['gen_tables']
 THEOREMS = ['C09_plain_lines', 'C09_span_verbatim', 'C09_html_block_verbatim', 'C09_blank_lines_kept', 'C09_definitions_in_place',
-            'C09_prefix_lines', 'C09_prefix_count', 'C09_fragment_round_trip', 'C09_fragment_round_trip_text', 'C09_fragment_round_trip_hypotheses',
+            'C09_prefix_lines', 'C09_prefix_count', 'C09_fragment_round_trip', 'C09_fragment_round_trip_text', 'C09_outline_round_trip', 'C09_fragment_round_trip_hypotheses',
             'C09_fragment_round_trip_needs_side_conditions']
 TRUSTED = ['Model/MarkdownRenderer.v: hand-written model of markdown_renderer.py, tied by X-md (the real renderer vs the extracted model on parsed trees)',
            'the document generator, the finding classifiers (oracle side)']
@@ -15,6 +15,7 @@ ASSUMPTIONS = ['unbounded theorem on the fragment of Spec/Fragment.v (one-line p
                'parse with the Markdown token sets then render without a line limit is the identity on the spelled text (C09_fragment_round_trip), hence same meaning, '
                'fixed point and exact normal form there; its two side conditions (fence not empty, code lines not starting with white space) are necessary - the '
                'statement is refuted without them by kernel evaluation - and are the recorded findings kf_md_empty_fence / kf_md_ws_line_in_code',
+               'the same identity is proved on tight nested bullet lists written one item per line (C09_outline_round_trip; any size, depth, bullet, padding, indentation)',
                'beyond the fragment the three clauses of the property (same meaning, idempotent, exact on normal form) are decided by the oracle on the implementation; '
                'what is proved there is the renderer half (verbatim emission) for all token trees: PARTIAL',
                'input classes recorded as findings are identified by classifiers on the input text / parsed tree; a failing input outside every '
@@ -135,6 +136,23 @@ def frag_worker(args):
     return text, md == text, md
 
 
+def outline_rt_worker(seed):
+    """the outline lists of C09_outline_round_trip on the implementation: the round trip is the identity"""
+    from harness.props import c03
+    rng = random.Random(seed)
+    forest = c03.outline_forest(rng, rng.randint(0, 4), 3)
+    k, b, pad, sub = rng.randint(0, 3), rng.choice('-+*'), rng.randint(1, 4), rng.randint(0, 3)
+    text = '\n'.join(c03.outline_spell(forest, k, b, pad, sub)) + '\n'
+    from mistletoe import Document
+    from mistletoe.markdown_renderer import MarkdownRenderer
+    try:
+        with MarkdownRenderer() as r:
+            md = r.render(Document(text))
+    except Exception as e:
+        return text, False, 'EXC %s: %s' % (type(e).__name__, e)
+    return text, md == text, md
+
+
 def run(ctx, only=None):
     ctx.cov['rule'] = ('the 652 spec examples and generated documents (every block and inline construct, canonical and non-canonical spellings) x '
                        'normalize_whitespace in {False, True}; non-trivial = the document has at least three lines; distinct = distinct (text, flag)')
@@ -193,6 +211,18 @@ def run(ctx, only=None):
                                 'what': 'a document of the fragment (C09_fragment_round_trip) is not reproduced byte for byte',
                                 'observed': md, 'expected': text, 'kf': None})
     ctx.cov['fragment_stream'] = {'trees': nf, 'outside_rt_ok_skipped': skipped, 'max_depth': 5}
+    no = 800 if ctx.quick() else 20000
+    with mp.Pool(core.NPROC) as pool:
+        ores = pool.map(outline_rt_worker, [ctx.seed * 7919 + i for i in range(no)], chunksize=50)
+    for text, ok, md in ores:
+        ctx.count('evaluations')
+        if text.count('\n') >= 3:
+            nontriv.add((text, False))
+        if not ok:
+            ctx.failing.append({'interface': 'oracle', 'input': {'text': text, 'normalize_whitespace': False, 'source': 'outline'},
+                                'what': 'a tight nested bullet list (C09_outline_round_trip) is not reproduced byte for byte',
+                                'observed': md, 'expected': text, 'kf': None})
+    ctx.cov['outline_stream'] = {'forests': no}
     ctx.count('distinct_nontrivial', len(nontriv))
     ctx.sample({'text': jobs[1400][0], 'normalize_whitespace': jobs[1400][1], 'markdown': res[1400].get('md')})
 
